@@ -359,6 +359,15 @@ static int String_Format_To(var self, int pos, const char* fmt, va_list va) {
   }
 #endif
   
+  char* tmp = malloc(size + 1);
+  
+#if CELLO_MEMORY_CHECK == 1
+  if (tmp is NULL) {
+    throw(OutOfMemoryError, "Cannot allocate String, out of memory!");
+  }
+#endif
+  
+  vsprintf(tmp, fmt, va);
   s->val = realloc(s->val, pos + size + 1);
   
 #if CELLO_MEMORY_CHECK == 1
@@ -367,7 +376,9 @@ static int String_Format_To(var self, int pos, const char* fmt, va_list va) {
   }
 #endif
   
-  return vsprintf(s->val + pos, fmt, va); 
+  memcpy(s->val + pos, tmp, size + 1);
+  free(tmp);
+  return size;
   
 #endif
 
